@@ -1,2 +1,544 @@
-// Package c19 will hold the check for property C19.
+// Package c19 decides C19: shutdown is graceful.  Real inbucket services listen on 127.0.0.1:0;
+// plain TCP clients hold 1-4 sessions open in chosen protocol states, shutdown is requested
+// (context cancel), and the harness checks that the listeners are closed, that every open
+// session can still finish (message stored and acknowledged, POP3 deletions applied), that
+// Drain returns after - and only after - the sessions ended, that retention scanner and hub
+// stop, and that the process survives events emitted after the hub stopped.
 package c19
+
+import (
+	"context"
+	"fmt"
+	"io"
+	"net/mail"
+	"os"
+	"runtime"
+	"strings"
+	"time"
+
+	"github.com/inbucket/inbucket/v3/pkg/extension"
+	"github.com/inbucket/inbucket/v3/pkg/message"
+	"github.com/inbucket/inbucket/v3/pkg/msghub"
+	"github.com/inbucket/inbucket/v3/pkg/policy"
+	"github.com/inbucket/inbucket/v3/pkg/server/pop3"
+	"github.com/inbucket/inbucket/v3/pkg/server/smtp"
+	"github.com/inbucket/inbucket/v3/pkg/storage"
+	"github.com/inbucket/inbucket/v3/pkg/storage/file"
+	"github.com/inbucket/inbucket/v3/pkg/storage/mem"
+
+	"verifharness/internal/fw"
+	"verifharness/internal/sut"
+)
+
+func init() {
+	storage.Constructors["memory"] = mem.New
+	storage.Constructors["file"] = file.New
+	fw.Register(&fw.Prop{
+		ID:    "C19",
+		Level: "exploration",
+		Race:  true,
+		Rule: "scenario = (backend{mem,file} x retention{disabled,idle,mid-scan} x hub listeners{0,1,2} x ordering of {cancel, client steps, Drain call, wait-for-Start}{5, one with Drain already waiting at cancel} x " +
+			"1-4 open sessions, each in an SMTP state {held at smtp.session.accepted, greeted, after EHLO, MAIL, RCPT, mid-DATA, body complete (optionally parked inside Deliver), idle after a transaction} " +
+			"or POP3 state {greeted, after USER, TRANSACTION with DELE marks}, ending with QUIT or (1 in 8) an abrupt client close; the first session's state cycles deterministically through all 11 states) over real TCP listeners on 127.0.0.1:0, " +
+			"services assembled piecewise (stream pw) and through server.FullAssembly/Services.Start with main.go's shutdown sequence (stream full, one per child process). " +
+			"A scenario is non-trivial when at least one session that was open at cancel time finished its dialogue afterwards; distinct by (mode, backend, retention mode, listeners, ordering, sorted session states).",
+		Assumptions: []string{
+			"shutdown request = cancelling the context handed to the services' Start functions, as cmd/inbucket/main.go does on SIGINT/SIGTERM; the 15 s timedExit of main.go is not modelled",
+			"'listener closed' is judged only after Start has returned (piecewise); with Services.Start the return of Start is not observable, so the listener must refuse connections within the bounded-progress budget after cancel",
+			"a probe connection that is greeted by a server with a different domain (kernel reused the port for another process) says nothing about inbucket and is only counted",
+			"a Drain call is judged against sessions that were open before the call and are still open (the server answers a request sent after Drain was seen returned); an early return is caught when observed before the harness lets the last session finish, a late one is subject to the bounded-progress rule",
+			"before.message_stored (public extension point, synchronous) is used to park a delivery inside Deliver; smtp.session.accepted (verif hook) parks an accepted session before its greeting",
+			"only one FullAssembly lifecycle per process (pkg/server/web keeps listener and server in package variables)",
+			"the real 60 s wait before RetentionScanner.Start begins a scan is only exercised in the thorough tier (one background scanner per child); otherwise mid-scan means DoScan(ctx) running at cancel time",
+		},
+		Batches: func(tier string) int {
+			if tier == "thorough" {
+				return 32
+			}
+			return 8
+		},
+		MinObs: minObs,
+		Run:    run,
+	})
+}
+
+func minObs(tier string) map[string]int64 {
+	// Roughly a third of what seed 1 observes in the quick tier; the thorough tier runs 16x the
+	// piecewise scenarios and 4x the FullAssembly lifecycles.
+	m := map[string]int64{
+		"sessions_finished_after_cancel":    2500,
+		"messages_acked_after_cancel":       2000,
+		"deliveries_after_hub_stopped":      1200,
+		"stored_checks_after_cancel":        2000,
+		"pop3_deletes_applied_after_cancel": 2000,
+		"drain_checked_while_session_open":  10000,
+		"drain_returned_after_last_session": 3000,
+		"held_released_after_drain_called":  150,
+		"probe_refused":                     3000,
+		"start_returned_after_cancel":       3000,
+		"hub_start_returned":                1500,
+		"retention_join_returned":           1500,
+		"doscan_aborted_mid_scan":           400,
+		"distinct_nontrivial":               1000,
+	}
+	for _, s := range smtpStates {
+		m["state:"+s] = 150
+	}
+	for _, s := range pop3States {
+		m["state:"+s] = 150
+	}
+	full := int64(8)
+	if tier == "thorough" {
+		for k := range m {
+			m[k] *= 10
+		}
+		full = 32
+		m["real_midscan_cancelled"] = 24
+	}
+	m["full_scenarios"] = full
+	m["full_shutdown_sequence_completed"] = full
+	return m
+}
+
+func run(c *fw.Ctx) {
+	installHook()
+	var bg *realScan
+	bgID := fmt.Sprintf("realscan#%d", c.Batch)
+	if !c.Quick() && (c.Only == "" || c.Only == bgID) {
+		bg = startRealScan(c)
+	}
+	c.Cases("full", c.NBatch, func(i int, r *fw.Rand) { runFull(c, i, r) })
+	c.Cases("pw", c.N(4800, 64000), func(i int, r *fw.Rand) { runPW(c, i, r) })
+	if bg != nil {
+		c.Begin(bgID)
+		bg.finish(c)
+		c.End()
+	}
+}
+
+// ---------------------------------------------------------------------------------------------
+
+type svcOps struct {
+	cancel       func()
+	callDrains   func()
+	waitStart    func() bool // true: Start has returned for both servers, probes are meaningful
+	checkStopped func()
+	afterLast    func(proto string)
+	finalWait    func()
+}
+
+func (w *world) probeAll() {
+	for _, p := range []string{"smtp", "pop3"} {
+		if w.probe(p) {
+			w.viol("C19:new-session-greeted-after-shutdown:"+p,
+				fmt.Sprintf("after cancel and after %s Start returned, a new connection to %s was accepted and greeted", strings.ToUpper(p), w.addr[p]))
+		}
+	}
+}
+
+// play runs the part of a scenario that starts with the shutdown request.
+func (w *world) play(ops *svcOps, ord int, stopFirst, heldLast bool) {
+	r := w.r
+	drains := func() {
+		ops.callDrains()
+		for _, p := range []string{"smtp", "pop3"} {
+			w.drainCalled[p] = true
+		}
+		w.logf("Drain called")
+		settle()
+	}
+	if ord == 4 {
+		drains() // Drain is already waiting when shutdown is requested
+	}
+	ops.cancel()
+	w.cancelled = true
+	w.logf("cancel()")
+	p1 := func() {
+		for _, s := range w.sessions {
+			if !s.alive() {
+				continue
+			}
+			max := s.remaining() - 1 // never the final step in this phase
+			if max <= 0 {
+				continue
+			}
+			k := r.Intn(max + 1)
+			if s.state == "held" && !r.Chance(1, 4) {
+				k = 0
+			}
+			for j := 0; j < k; j++ {
+				if !s.runStep() {
+					break
+				}
+			}
+		}
+		w.logf("clients continued before Drain was called")
+	}
+	startAndProbe := func() {
+		if ops.waitStart() {
+			w.probeAll()
+		}
+	}
+	switch ord {
+	case 0:
+		startAndProbe()
+		drains()
+	case 1:
+		drains()
+		startAndProbe()
+	case 2:
+		p1()
+		drains()
+		startAndProbe()
+	case 3:
+		startAndProbe()
+		p1()
+		drains()
+	default:
+		startAndProbe()
+	}
+	if stopFirst {
+		ops.checkStopped()
+	}
+	order := r.Perm(len(w.sessions))
+	if heldLast {
+		var a, b []int
+		for _, i := range order {
+			if w.sessions[i].state == "held" {
+				b = append(b, i)
+			} else {
+				a = append(a, i)
+			}
+		}
+		order = append(a, b...)
+	}
+	for _, i := range order {
+		s := w.sessions[i]
+		if s.alive() && s.state == "held" && s.next == 0 {
+			w.c.Count("held_released_after_drain_called", 1)
+		}
+		for s.alive() && s.remaining() > 0 {
+			if !s.runStep() {
+				break
+			}
+		}
+		if s.ended {
+			w.c.Count("sessions_finished_after_cancel", 1)
+			w.c.Count("state:"+s.state, 1)
+			w.logf("s%d finished", s.id)
+		}
+		if w.liveCount(s.proto) == 0 {
+			if s.proto == "smtp" {
+				w.hold.releaseAll() // nothing of ours is parked any more; let strays go
+			}
+			ops.afterLast(s.proto)
+		}
+	}
+	if !stopFirst {
+		ops.checkStopped()
+	}
+	w.hold.releaseAll()
+	ops.finalWait()
+}
+
+// quiesce waits (best effort, for crash attribution only) until goroutines started by the
+// scenario - notably asynchronous event dispatch - have finished.
+func quiesce(c *fw.Ctx, base int) {
+	deadline := time.Now().Add(3 * time.Second)
+	for runtime.NumGoroutine() > base {
+		if time.Now().After(deadline) {
+			c.Count("quiesce_timeouts", 1)
+			return
+		}
+		time.Sleep(time.Millisecond)
+	}
+}
+
+func uniqueDomain(r *fw.Rand) string {
+	return fmt.Sprintf("c19-%d-%s.test", os.Getpid(), r.Letters(10, "abcdefghijklmnopqrstuvwxyz"))
+}
+
+// planSessions chooses the sessions of a scenario.  The first session's state cycles through
+// all states with the case index.
+func planSessions(w *world, idx int, n int) {
+	r := w.r
+	all := append(append([]string{}, smtpStates...), pop3States...)
+	for k := 0; k < n; k++ {
+		var st string
+		if k == 0 {
+			st = all[idx%len(all)]
+		} else if r.Chance(2, 3) {
+			st = smtpStates[r.Intn(len(smtpStates))]
+		} else {
+			st = pop3States[r.Intn(len(pop3States))]
+		}
+		s := &session{w: w, id: k, state: st, proto: "smtp", marked: map[int]bool{}}
+		if strings.HasPrefix(st, "p-") {
+			s.proto = "pop3"
+		}
+		s.mailbox = fmt.Sprintf("box%d%s", k, r.Letters(6, "abcdefghijklmnopqrstuvwxyz"))
+		if st == "bodysent" {
+			s.gated = r.Chance(2, 3)
+		}
+		s.secondTx = s.proto == "smtp" && r.Chance(1, 4)
+		s.abrupt = r.Chance(1, 8)
+		w.sessions = append(w.sessions, s)
+	}
+}
+
+func addrOf(a string) *mail.Address { return &mail.Address{Address: a} }
+
+func addrsOf(a ...string) []*mail.Address {
+	var out []*mail.Address
+	for _, x := range a {
+		out = append(out, addrOf(x))
+	}
+	return out
+}
+
+// storeDirect reads mailboxes through the storage.Store interface.
+type storeDirect struct{ st storage.Store }
+
+func (v storeDirect) list(mailbox string) ([]msgView, error) {
+	ms, err := v.st.GetMessages(mailbox)
+	if err != nil {
+		return nil, err
+	}
+	var out []msgView
+	for _, m := range ms {
+		rd, err := m.Source()
+		if err != nil {
+			return nil, fmt.Errorf("Source(%s): %w", m.ID(), err)
+		}
+		b, err := io.ReadAll(rd)
+		_ = rd.Close()
+		if err != nil {
+			return nil, fmt.Errorf("reading source of %s: %w", m.ID(), err)
+		}
+		out = append(out, msgView{ID: m.ID(), Source: string(b)})
+	}
+	return out, nil
+}
+
+func runPW(c *fw.Ctx, idx int, r *fw.Rand) {
+	if hangsSeen >= hangBudget {
+		c.Count("scenarios_skipped_after_hangs", 1)
+		return
+	}
+	base := runtime.NumGoroutine()
+	w := newWorld(c, r, "pw")
+	defer quiesce(c, base)
+	defer w.cleanup()
+
+	backend := []string{"mem", "file"}[idx%2]
+	scanMode := (idx / 2) % 3 // 0 disabled, 1 idle (waiting for its first scan), 2 mid-scan
+	nListeners := r.Intn(3)
+	ord := r.Intn(5)
+	stopFirst := r.Chance(3, 4)
+	heldLast := r.Chance(1, 2)
+	nSess := r.Range(1, 4)
+	w.domain = uniqueDomain(r)
+	w.plan["backend"], w.plan["retention"], w.plan["hub_listeners"] = backend, []string{"disabled", "idle", "mid-scan"}[scanMode], nListeners
+	w.plan["ordering"] = []string{"cancel,wait-start,drain,continue", "cancel,drain,wait-start,continue",
+		"cancel,continue,drain,wait-start,continue", "cancel,wait-start,continue,drain,continue", "drain,cancel,wait-start,continue"}[ord]
+	w.plan["stop_checked_before_sessions_finish"], w.plan["held_last"] = stopFirst, heldLast
+
+	conf := sut.DefaultConf()
+	conf.SMTP.Domain, conf.POP3.Domain = w.domain, w.domain
+	switch scanMode {
+	case 1:
+		conf.Storage.RetentionPeriod, conf.Storage.RetentionSleep = 10000*time.Hour, 50*time.Millisecond
+	case 2:
+		conf.Storage.RetentionPeriod, conf.Storage.RetentionSleep = 10000*time.Hour, 10*time.Minute
+	}
+	if backend == "file" {
+		conf.Storage.Type = "file"
+		conf.Storage.Params = map[string]string{"path": c.TempDir("c19fs")}
+	}
+	host := extension.NewHost()
+	hub := msghub.New(30, host)
+	store, err := sut.NewStore(backend, conf.Storage, host)
+	if err != nil {
+		panic(err)
+	}
+	pol := &policy.Addressing{Config: conf}
+	mgr := &message.StoreManager{AddrPolicy: pol, Store: store, ExtHost: host}
+	smtpSrv := smtp.NewServer(conf.SMTP, mgr, pol, host)
+	pop3Srv, err := pop3.NewServer(conf.POP3, store)
+	if err != nil {
+		panic(err)
+	}
+	vs := newVisitSignal(store)
+	scanner := storage.NewRetentionScanner(conf.Storage, vs)
+	w.view = storeDirect{store}
+	w.gates = newGates(host)
+	w.hold = newHolder()
+	curHolder.Store(w.hold)
+	stored := newStoredCounter(host)
+
+	ctx, cancel := context.WithCancel(context.Background())
+	w.cleanups = append(w.cleanups, cancel)
+	mk := func() chan struct{} { return make(chan struct{}) }
+	hubDone, scanDone, smtpReady, pop3Ready, smtpStartDone, pop3StartDone := mk(), mk(), mk(), mk(), mk(), mk()
+	go func() { hub.Start(ctx); close(hubDone) }()
+	var listeners []*hubListener
+	for i := 0; i < nListeners; i++ {
+		l := &hubListener{}
+		listeners = append(listeners, l)
+		hub.AddListener(l)
+	}
+	go func() { smtpSrv.Start(ctx, func() { close(smtpReady) }); close(smtpStartDone) }()
+	go func() { pop3Srv.Start(ctx, func() { close(pop3Ready) }); close(pop3StartDone) }()
+	go func() { scanner.Start(ctx); close(scanDone) }()
+	if !w.waitCh(smtpReady) || !w.waitCh(pop3Ready) {
+		c.Inconclusive("SMTP/POP3 server did not report ready")
+		return
+	}
+	w.addr["smtp"], w.addr["pop3"] = smtpSrv.VerifAddr().String(), pop3Srv.VerifAddr().String()
+
+	preload := func(mailbox string, n int) []string {
+		for i := 0; i < n; i++ {
+			src := fmt.Sprintf("Subject: pre %d\r\n\r\npreloaded %s %d\r\n", i, mailbox, i)
+			d := sut.NewDelivery(mailbox, addrOf("pre@origin.test"), addrsOf(mailbox+"@inbucket.test"), fmt.Sprintf("pre %d", i), time.Now(), []byte(src))
+			if _, err := store.AddMessage(d); err != nil {
+				panic(err)
+			}
+		}
+		ms, err := w.view.list(mailbox)
+		if err != nil {
+			panic(err)
+		}
+		var ids []string
+		for _, m := range ms {
+			ids = append(ids, m.ID)
+		}
+		return ids
+	}
+
+	planSessions(w, idx/6, nSess)
+	for _, s := range w.sessions {
+		if s.proto == "pop3" {
+			s.ids = preload(s.mailbox, r.Range(3, 5))
+		}
+	}
+	var doScanDone chan struct{}
+	if scanMode == 2 {
+		for i := 0; i < 3; i++ {
+			preload(fmt.Sprintf("scan%d", i), 1)
+		}
+		doScanDone = mk()
+		go func() { _ = scanner.DoScan(ctx); close(doScanDone) }()
+		if !w.waitCh(vs.ch) {
+			c.Inconclusive("retention scan did not reach its first mailbox")
+			return
+		}
+		w.logf("retention scan is between mailboxes")
+	}
+	if scanMode == 0 {
+		// A disabled scanner has nothing to wait for, with or without shutdown.
+		if !w.waitCh(scanDone) {
+			w.hang("retention-start-disabled", "RetentionScanner.Start with period 0 did not return")
+			return
+		}
+	}
+	for _, s := range w.sessions {
+		s.open()
+	}
+	c.Max("max_open_sessions", int64(w.liveCount("smtp")+w.liveCount("pop3")))
+	eventsBefore := stored.n.Load()
+
+	hung := map[string]bool{}
+	waitDrain := func(p string) {
+		if hung[p] || !w.drainCalled[p] {
+			return
+		}
+		if w.waitCh(w.drainDone[p]) {
+			return
+		}
+		hung[p] = true
+		w.hang("drain-return:"+p, strings.ToUpper(p)+" Drain did not return although every session has ended and shutdown was requested")
+	}
+	ops := &svcOps{
+		cancel: cancel,
+		callDrains: func() {
+			w.drainDone["smtp"], w.drainDone["pop3"] = mk(), mk()
+			go func(ch chan struct{}) { smtpSrv.Drain(); close(ch) }(w.drainDone["smtp"])
+			go func(ch chan struct{}) { pop3Srv.Drain(); close(ch) }(w.drainDone["pop3"])
+		},
+		waitStart: func() bool {
+			if !w.waitCh(smtpStartDone) {
+				w.hang("start-return:smtp", "smtp.Server.Start did not return after cancel")
+				return false
+			}
+			if !w.waitCh(pop3StartDone) {
+				w.hang("start-return:pop3", "pop3.Server.Start did not return after cancel")
+				return false
+			}
+			c.Count("start_returned_after_cancel", 2)
+			w.logf("Start returned (SMTP, POP3)")
+			return true
+		},
+		checkStopped: func() {
+			if w.waitCh(hubDone) {
+				w.hubStopped = true
+				c.Count("hub_start_returned", 1)
+				w.logf("Hub.Start returned")
+			} else {
+				w.hang("hub-start-return", "Hub.Start did not return after cancel")
+			}
+			if w.waitCh(scanDone) {
+				c.Count("retention_start_returned", 1)
+				joined := mk()
+				go func() { scanner.Join(); close(joined) }()
+				if w.waitCh(joined) {
+					c.Count("retention_join_returned", 1)
+				} else {
+					w.hang("retention-join", "RetentionScanner.Join did not return although Start has returned")
+				}
+			} else {
+				w.hang("retention-start-return", fmt.Sprintf("RetentionScanner.Start (%v) did not return after cancel", w.plan["retention"]))
+			}
+			if doScanDone != nil {
+				if w.waitCh(doScanDone) {
+					c.Count("doscan_aborted_mid_scan", 1)
+				} else {
+					w.hang("retention-doscan-abort", "DoScan did not return after cancel (RetentionSleep 10m, 3+ mailboxes)")
+				}
+			}
+		},
+		afterLast: func(p string) {
+			if w.drainCalled[p] {
+				waitDrain(p)
+			}
+		},
+	}
+	ops.finalWait = func() {
+		for _, p := range []string{"smtp", "pop3"} {
+			waitDrain(p)
+			if w.drainCalled[p] && !hung[p] {
+				c.Count("drain_returned_after_last_session", 1)
+			}
+		}
+	}
+	w.play(ops, ord, stopFirst, heldLast)
+
+	finished := 0
+	for _, s := range w.sessions {
+		if s.ended {
+			finished++
+		}
+	}
+	c.Count("stored_events_after_cancel", stored.n.Load()-eventsBefore)
+	var lrecv int64
+	for _, l := range listeners {
+		lrecv += l.recv.Load()
+	}
+	c.Count("hub_listener_events", lrecv)
+	c.Count("stored_events_before_cancel", eventsBefore)
+	if finished > 0 {
+		c.NonTrivial(fmt.Sprintf("pw|%s|%d|%d|%d|%s", backend, scanMode, nListeners, ord, w.signature()))
+	}
+	if idx%97 == 0 || w.nViol > 0 {
+		c.Sample(map[string]any{"plan": w.plan, "sessions": w.signature(), "trace": w.trace})
+	}
+}
